@@ -13,7 +13,7 @@
 From Coq Require Import List ZArith NArith Bool.
 Import ListNotations.
 From NV Require Import gen.Consts_Conntrack model.Wheel model.Conntrack model.FwReload
-  proofs.Conntrack_proofs proofs.FwReload_proofs.
+  proofs.Conntrack_proofs proofs.FwReload_proofs proofs.Conntrack_cache.
 Open Scope Z_scope.
 
 (* T1: the protocol numbers the timeout switch tests and the timeouts of an unconfigured firewall, as compiled in *)
@@ -105,6 +105,53 @@ Proof.
 Qed.
 Print Assumptions C18_expired_stays_expired.
 
+(* ---- with a routine-local conntrack cache (firewall/cache.go) ---------------------------------------------------------
+   [cverdicts] are the results of Drop when every call is handed the cache of a ConntrackCacheTicker of period P
+   started when the node starts; the cache is emptied at every tick. The theorems above (nil cache) are unchanged. *)
+
+(* ALL histories, every flow: the verdicts are the ones the specification with a cache prescribes: as before, and
+   additionally a flow passes while it is in the cache; it enters the cache only when the table honours a packet of it
+   (tracked, not idle past its timeout, original direction valid), and leaves it at the next tick. *)
+Theorem C18_cache_history_spec : forall allowed addr_ok rs v0 tcp udp def t0 P h f,
+  (v0 < 65536)%N ->
+  cflow_ok allowed addr_ok true f (cspec_boot (spec_boot rs v0 tcp udp def t0) P) h
+           (cverdicts allowed addr_ok h (cboot (boot rs v0 tcp udp def t0) P)) = true.
+Proof.
+  intros. apply cache_model_meets_spec; [now apply vinv_boot|apply CR_boot, Rf_boot].
+Qed.
+Print Assumptions C18_cache_history_spec.
+
+(* Bounded staleness: with a cache, a packet that no rule allows passes only if the table honours its flow at that
+   instant (tracked, now <= Expires, original direction valid), or honoured an earlier packet of the flow and no tick of
+   the cache ticker happened since (so: idle for at most timeout + one cache period). *)
+Theorem C18_cache_staleness_bounded : forall allowed addr_ok rs v0 tcp udp def t0 P h p d f,
+  let cn0 := cboot (boot rs v0 tcp udp def t0) P in
+  let cn := cexec allowed addr_ok h cn0 in
+  fst (cstep allowed addr_ok (EPkt p d f) cn) = Some true ->
+  allowed (f_rules (n_fw (cn_node cn))) p d f = false ->
+  table_live allowed addr_ok p f (cn_node cn) \/
+  exists h1 p' d' h2, h = h1 ++ EPkt p' d' f :: h2 /\
+    table_live allowed addr_ok p' f (cn_node (cexec allowed addr_ok h1 cn0)) /\
+    no_tick P t0 (n_now (cn_node (cexec allowed addr_ok h1 cn0))) h2 = true.
+Proof. intros. now apply (cache_pass_justified allowed addr_ok p d f h cn0). Qed.
+Print Assumptions C18_cache_staleness_bounded.
+
+(* ... and never after a refused packet of the same flow: a refused flow is not in the cache and stays refused, tick
+   or no tick, until a rule allows a new packet of it. *)
+Theorem C18_cache_refused_stays_refused : forall allowed addr_ok rs v0 tcp udp def t0 P h1 p d f h2,
+  let cn := cexec allowed addr_ok h1 (cboot (boot rs v0 tcp udp def t0) P) in
+  addr_ok (f_rules (n_fw (cn_node cn))) p f = true ->
+  fst (cstep allowed addr_ok (EPkt p d f) cn) = Some false ->
+  quiet allowed addr_ok f (f_rules (n_fw (cn_node cn))) h2 = true ->
+  forallb negb (restrict f h2 (cverdicts allowed addr_ok h2 (snd (cstep allowed addr_ok (EPkt p d f) cn)))) = true.
+Proof.
+  intros allowed addr_ok rs v0 tcp udp def t0 P h1 p d f h2 cn A R Q.
+  apply (cdead_stays allowed addr_ok f h2); [now apply crefused_dead|].
+  destruct (cstep_node allowed addr_ok (EPkt p d f) cn) as [E|[_ [_ [_ [_ E]]]]]; rewrite E; [|exact Q].
+  destruct (step_pkt_fw allowed addr_ok p d f (cn_node cn)) as [Efw _]. now rewrite Efw.
+Qed.
+Print Assumptions C18_cache_refused_stays_refused.
+
 (* ---- the theorems are not vacuous: the exact instant, with and without churn -----------------------------------------
    TCP 12 min, tick 3 min. Flow f is allowed inbound at 0 and refreshed at 3 min (Expires = 15 min). Its reply passes
    at exactly 15 min, also when an unrelated flow g is inserted at that same instant (before the F24 repair the
@@ -124,3 +171,12 @@ Example C18_nonvacuous :
   restrict wit_f (wit_h 720000000001 false) (verdicts wit_allowed wit_addr_ok (wit_h 720000000001 false) wit_boot) = [true; true; false] /\
   restrict wit_f (wit_h 720000000001 true) (verdicts wit_allowed wit_addr_ok (wit_h 720000000001 true) wit_boot) = [true; true; false].
 Proof. vm_compute. repeat split. Qed.
+
+(* with a cache of period 1 s and a 300 ms timeout: the reply at 500 ms rides on the cache (stale, documented); after
+   the tick at 1 s it is refused, and stays refused within that period *)
+Example C18_cache_nonvacuous :
+  cverdicts wit_allowed wit_addr_ok
+    [EPkt 0 true wit_f; EPkt 0 false wit_f; ESleep 500000000; EPkt 0 false wit_f; ESleep 600000000;
+     EPkt 0 false wit_f; EPkt 0 false wit_f]
+    (cboot (boot 0 0 300000000 300000000 300000000 0) 1000000000) = [true; true; true; false; false].
+Proof. vm_compute. reflexivity. Qed.
